@@ -856,6 +856,13 @@ def rule_hygiene(ctx):
     rule_iteration_mutation(ctx, fs, label)
     rule_zip_parallel(ctx, fs, label, floor=0)
     rule_carry(ctx, fs, label)
+    rule_params_used(ctx, fs, label)
+    rule_loopvar_after_loop(ctx, fs, label)
+    rule_setdefault_drop(ctx, fs, label)
+    rule_dead_stores(ctx, fs, label)
+    rule_global_row_leak(ctx, fs, label)
+    rule_unit_pairs(ctx, fs, label)
+    rule_dead_keys(ctx, fs, label)
 
 
 # --------------------------------------------------------------------------- CARRY
@@ -1020,3 +1027,256 @@ def anchor_functions(ctx):
                                 if short == nm or short.endswith("." + nm) or short.startswith(nm + "."):
                                     out.append(f)
     return out
+
+
+# --------------------------------------------------------------------------- PARAM-used
+# an option that is accepted and silently ignored
+
+# parameters that are unused on the pinned tree (signature compatibility / not yet implemented): confirmed by reading, frozen here.
+# Keys are API names (function, parameter), not local names.
+UNUSED_ON_PINNED_TREE = {
+    ("partitura.io.exportmusicxml:do_note", "measure_end"), ("partitura.io.exportmusicxml:do_note", "part"),
+    ("partitura.io.importkern:SplineParser.process_istrument_class_line", "line"),
+    ("partitura.io.importkern:SplineParser.process_istrument_group_line", "line"),
+    ("partitura.io.importkern:SplineParser.process_istrument_line", "line"),
+    ("partitura.io.importkern:SplineParser.process_istrument_transpose_line", "line"),
+    ("partitura.io.importkern:SplineParser.process_timebase_line", "line"),
+    ("partitura.io.importmatch:parse_matchline", "debug"),
+    ("partitura.musicanalysis.key_identification:format_key", "fifths"),
+    ("partitura.musicanalysis.note_features:duration_feature", "part"),
+    ("partitura.musicanalysis.note_features:metrical_strength_feature", "part"),
+    ("partitura.musicanalysis.note_features:onset_feature", "part"),
+    ("partitura.musicanalysis.note_features:polynomial_pitch_feature", "part"),
+    ("partitura.musicanalysis.note_features:vertical_neighbor_feature", "part"),
+    ("partitura.musicanalysis.voice_separation:VSNote.__init__", "velocity"),
+}
+
+
+def rule_params_used(ctx, scope, label):
+    rule = "PARAM-used"
+    ctx.rule(rule, "every parameter of an anchored function is read somewhere in its body (an option that is accepted but never "
+                   "consulted is silently ignored); parameters unused on the pinned tree for signature compatibility are listed by name")
+    n = k = 0
+    for f in _funcs_of(ctx, scope):
+        n += 1
+        for p in unused_parameters(f):
+            q = f.qname.split("#")[0]
+            if (q, p) in UNUSED_ON_PINNED_TREE:
+                k += 1
+                continue
+            ctx.fail(rule, f"{f.qname}({p})", f.qname, f"parameter-ignored:{p}", f.module.relpath, f.node.lineno,
+                     f"parameter `{p}` of {f.qname.split(':')[1]} is never read: the option is accepted and silently ignored "
+                     f"(a module-level constant or another variable was probably used in its place)")
+    ctx.ok(rule, f"{label}: {n} functions, every parameter read ({k} listed signature-compatibility parameters)")
+
+
+# --------------------------------------------------------------------------- round-4 hygiene rules
+
+def rule_loopvar_after_loop(ctx, scope, label):
+    rule = "F7c"
+    ctx.rule(rule, "no read of a loop variable after its (break-free) loop, in particular not inside a *later* loop, where it silently "
+                   "keeps the last value of the earlier one (copy-paste of a sibling loop)")
+    n = 0
+    for f in _funcs_of(ctx, scope):
+        n += 1
+        for lp, name, use in loop_var_after_loop(f):
+            ctx.fail(rule, f"{f.qname}: `{name}` after its loop", f.qname, f"stale-loop-variable:{f.name}", f.module.relpath, use.lineno,
+                     f"`{name}` is the loop variable of the loop at line {lp.lineno} and is read again at line {use.lineno}, after that loop has finished: it "
+                     f"holds the last element of the earlier loop, whatever the current context is")
+    ctx.ok(rule, f"{label}: {n} functions, no stale loop variable")
+
+
+def rule_setdefault_drop(ctx, scope, label):
+    rule = "SETDEFAULT"
+    ctx.rule(rule, "`d.setdefault(k, <non-empty container display>)` as a statement only has an effect for the first k: inside a loop "
+                   "every later element for the same key is dropped (an accumulation needs `.setdefault(k, set()).add(x)`)")
+    n = 0
+    for f in _funcs_of(ctx, scope):
+        for s in own_nodes(f.node):
+            if isinstance(s, ast.Expr) and isinstance(s.value, ast.Call) and isinstance(s.value.func, ast.Attribute) and s.value.func.attr == "setdefault" \
+                    and len(s.value.args) == 2:
+                n += 1
+                d = s.value.args[1]
+                filled = (isinstance(d, (ast.Set, ast.List, ast.Tuple)) and d.elts) or (isinstance(d, ast.Dict) and d.keys) or \
+                    (isinstance(d, ast.Call) and norm(d.func) in ("set", "list", "dict") and d.args)
+                in_loop = any(isinstance(p, (ast.For, ast.While)) for p in _ancestors(s, f.node))
+                if filled and in_loop:
+                    ctx.fail(rule, f"{f.qname}: `{norm(s)[:50]}`", f.qname, f"setdefault-drops-later-elements:{f.name}", f.module.relpath, s.lineno,
+                             f"`{norm(s)[:70]}` keeps only the first element per key: every later one in the loop is silently dropped")
+    ctx.ok(rule, f"{label}: {n} setdefault statement(s)")
+
+
+def _ancestors(n, root):
+    p = getattr(n, "_parent", None)
+    while p is not None and p is not root:
+        yield p
+        p = getattr(p, "_parent", None)
+
+
+def dead_stores(f: FuncInfo):
+    """assignments `name = <non-constant expression>` to a local that is never read anywhere in the function"""
+    if any(isinstance(x, ast.Call) and isinstance(x.func, ast.Name) and x.func.id in ("locals", "vars", "eval", "exec") for x in ast.walk(f.node)):
+        return
+    loads = {x.id for x in ast.walk(f.node) if isinstance(x, ast.Name) and isinstance(x.ctx, (ast.Load, ast.Del))}
+    glob = {nm for x in ast.walk(f.node) if isinstance(x, (ast.Global, ast.Nonlocal)) for nm in x.names}
+    for s in own_nodes(f.node):
+        if isinstance(s, ast.Assign) and len(s.targets) == 1 and isinstance(s.targets[0], ast.Name) and not isinstance(s.value, ast.Constant):
+            nm = s.targets[0].id
+            if nm not in loads and nm not in glob and not nm.startswith("_"):
+                yield s
+
+
+# functions that already contain computed-but-unused locals on the pinned tree (function -> how many); confirmed by reading: leftovers
+DEAD_STORES_ON_PINNED_TREE = {
+    "partitura.io.exportmusicxml:do_directions": 2, "partitura.io.importkern:SplineParser.meta_barline_line": 2,
+    "partitura.io.importmatch:load_matchfile": 1, "partitura.io.importmei:MeiParser._handle_space": 1,
+    "partitura.io.importmusicxml:_handle_note": 1, "partitura.io.importmusicxml:parse_fingering": 1,
+}
+
+
+def rule_dead_stores(ctx, scope, label):
+    rule = "DEAD-STORE"
+    ctx.rule(rule, "no local is computed and then never read (the value that was meant to be used was probably replaced by another "
+                   "variable further down); functions that contain such leftovers on the pinned tree are listed with their count")
+    n = 0
+    for f in _funcs_of(ctx, scope):
+        n += 1
+        ds = list(dead_stores(f))
+        allowed = DEAD_STORES_ON_PINNED_TREE.get(f.qname.split("#")[0], 0)
+        if len(ds) > allowed:
+            s = ds[-1]
+            ctx.fail(rule, f"{f.qname}: {len(ds)} unused computed local(s)", f.qname, f"computed-never-read:{f.name}", f.module.relpath, s.lineno,
+                     f"{len(ds)} local(s) of {f.qname.split(':')[1]} are computed and never read (pinned tree: {allowed}), e.g. `{norm(s)[:60]}`: the value "
+                     f"prepared here does not reach the place it was prepared for")
+    ctx.ok(rule, f"{label}: {n} functions, no new computed-but-unread local")
+
+
+def rule_global_row_leak(ctx, scope, label):
+    rule = "GLOBAL-leak"
+    ctx.rule(rule, "a function never hands out a row of a module-level table whose rows are mutable (dict / list) without copying it: "
+                   "one caller editing its result would change the table for every later call")
+    fo = world(ctx).folder
+    n = 0
+    for f in _funcs_of(ctx, scope):
+        local = {x.id for x in ast.walk(f.node) if isinstance(x, ast.Name) and isinstance(x.ctx, ast.Store)} | set(f.all_params)
+        for r in own_nodes(f.node):
+            v = r.value if isinstance(r, (ast.Return, ast.Yield)) else None
+            if not (isinstance(v, ast.Subscript) and isinstance(v.value, ast.Name) and v.value.id not in local):
+                continue
+            sym = ctx.prog.resolve_name(f.module, v.value.id)
+            if not (sym and sym[0] == "const"):
+                continue
+            try:
+                tab = fo.try_const(sym[1].name, sym[2])
+            except Exception:
+                tab = None
+            if tab is None:
+                continue
+            n += 1
+            rows = list(tab.values()) if isinstance(tab, dict) else (list(tab) if isinstance(tab, (list, tuple)) else [])
+            mutable = any(isinstance(x, (dict, list, set)) for x in rows)
+            ctx.check(not mutable, rule, f"{f.qname}: `{norm(r)[:40]}`", func=f, node=r, construct=f"table-row-returned-uncopied:{v.value.id}",
+                      msg=f"`{norm(r)[:60]}` returns a row of the module-level table `{v.value.id}` itself (rows are mutable): a caller that edits the result "
+                          f"corrupts the table for the rest of the process — return a copy")
+    ctx.ok(rule, f"{label}: {n} table row(s) returned, none mutable")
+
+
+def rule_unit_pairs(ctx, scope, label):
+    rule = "UNIT-pair"
+    ctx.rule(rule, "every literal pair ('onset_<u>', 'duration_<v>') names the same time unit")
+    n = 0
+    for f in _funcs_of(ctx, scope):
+        for t in ast.walk(f.node):
+            if isinstance(t, (ast.Tuple, ast.List)) and len(t.elts) == 2 and all(isinstance(e, ast.Constant) and isinstance(e.value, str) for e in t.elts):
+                a, b = t.elts[0].value, t.elts[1].value
+                if a.startswith("onset_") and b.startswith("duration_"):
+                    n += 1
+                    ctx.check(a[6:] == b[9:], rule, f"{f.qname}: ({a!r}, {b!r})", func=f, node=t, construct=f"mixed-time-units:{a}/{b}",
+                              msg=f"the pair ({a!r}, {b!r}) mixes two time units: onsets would be read in `{a[6:]}` and durations in `{b[9:]}`")
+    ctx.ok(rule, f"{label}: {n} (onset, duration) literal pair(s)")
+
+
+# --------------------------------------------------------------------------- DEAD-KEY
+
+def dead_dict_keys(f: FuncInfo):
+    """(dict name, key, node): a string key written through a dict display into a function-local dict (possibly nested:
+    `m[x] = {"k": ..}`) that is never read in the function, although the dict does not leave the function and is not
+    accessed dynamically at that nesting level"""
+    written = {}  # (root, depth) -> {key: node}
+    for s in own_nodes(f.node):
+        if isinstance(s, ast.Assign) and len(s.targets) == 1 and isinstance(s.value, ast.Dict) and s.value.keys \
+                and all(isinstance(k, ast.Constant) and isinstance(k.value, str) for k in s.value.keys):
+            root, depth = s.targets[0], 1
+            while isinstance(root, ast.Subscript):
+                root, depth = root.value, depth + 1
+            if isinstance(root, ast.Name) and root.id not in f.all_params:
+                for k in s.value.keys:
+                    written.setdefault((root.id, depth), {}).setdefault(k.value, s)
+        # `m = {v: {"k": ..} for v in ..}`: the keys live one level down
+        if isinstance(s, ast.Assign) and len(s.targets) == 1 and isinstance(s.targets[0], ast.Name) and isinstance(s.value, ast.DictComp) \
+                and isinstance(s.value.value, ast.Dict) and s.value.value.keys and s.targets[0].id not in f.all_params \
+                and all(isinstance(k, ast.Constant) and isinstance(k.value, str) for k in s.value.value.keys):
+            for k in s.value.value.keys:
+                written.setdefault((s.targets[0].id, 2), {}).setdefault(k.value, s)
+    if not written:
+        return
+    const_reads = {n.slice.value for n in ast.walk(f.node) if isinstance(n, ast.Subscript) and isinstance(n.ctx, ast.Load)
+                   and isinstance(n.slice, ast.Constant) and isinstance(n.slice.value, str)}
+    const_reads |= {n.args[0].value for n in ast.walk(f.node) if isinstance(n, ast.Call) and isinstance(n.func, ast.Attribute)
+                    and n.func.attr in ("get", "pop", "setdefault") and n.args and isinstance(n.args[0], ast.Constant)}
+    const_reads |= {n.left.value for n in ast.walk(f.node) if isinstance(n, ast.Compare) and isinstance(n.left, ast.Constant)
+                    and any(isinstance(o, (ast.In, ast.NotIn)) for o in n.ops)}
+
+    def chain(e):
+        idx = []
+        while isinstance(e, ast.Subscript):
+            idx.append(e.slice)
+            e = e.value
+        return (e.id if isinstance(e, ast.Name) else None), list(reversed(idx))
+    for (name, depth), keys in written.items():
+        skip = False
+        for n in ast.walk(f.node):
+            # the dict leaves the function
+            if isinstance(n, (ast.Return, ast.Yield, ast.YieldFrom)) and n.value is not None and any(isinstance(x, ast.Name) and x.id == name for x in ast.walk(n.value)):
+                skip = True
+            if isinstance(n, ast.Call):
+                for a in list(n.args) + [k.value for k in n.keywords]:
+                    if any(isinstance(x, ast.Name) and x.id == name for x in ast.walk(a)):
+                        skip = True
+                # dynamic access: .get(var) / .items() / .values() on the level that holds the keys
+                if isinstance(n.func, ast.Attribute) and n.func.attr in ("get", "pop", "items", "values", "keys", "update"):
+                    r, idx = chain(n.func.value)
+                    if r == name and len(idx) == depth - 1 and not (n.args and isinstance(n.args[0], ast.Constant)):
+                        skip = True
+            if isinstance(n, ast.Assign) and any(isinstance(x, ast.Name) and x.id == name for x in ast.walk(n.value)) and \
+                    not (isinstance(n.value, ast.Subscript) and isinstance(n.value.slice, ast.Constant)):
+                # aliased (info = m[x]) or stored elsewhere: reads through the alias are covered by const_reads, but dynamic ones are not
+                skip = skip or any(isinstance(t, ast.Attribute) for t in n.targets)
+            if isinstance(n, ast.Subscript) and isinstance(n.ctx, ast.Load):
+                r, idx = chain(n)
+                if r == name and len(idx) >= depth and not isinstance(idx[depth - 1], ast.Constant):
+                    skip = True
+            if isinstance(n, (ast.For, ast.comprehension)):
+                r, idx = chain(n.iter)
+                if r == name and len(idx) == depth - 1:
+                    skip = True
+        if skip:
+            continue
+        for k, node in keys.items():
+            if k not in const_reads:
+                yield name, k, node
+
+
+def rule_dead_keys(ctx, scope, label):
+    rule = "DEAD-KEY"
+    ctx.rule(rule, "a string key written into a function-local dict (directly or one level down, `m[x] = {'k': ..}`) is read somewhere "
+                   "in the function, unless the dict leaves the function or is accessed with computed keys at that level: a key that is "
+                   "prepared and never consulted means the place that was to consult it uses something else")
+    n = 0
+    for f in _funcs_of(ctx, scope):
+        n += 1
+        for name, k, node in dead_dict_keys(f):
+            ctx.fail(rule, f"{f.qname}: {name}[..][{k!r}]", f.qname, f"key-written-never-read:{k}", f.module.relpath, node.lineno,
+                     f"the entry {k!r} of `{name}` is filled at line {node.lineno} and never read in {f.qname.split(':')[1]}: the selection it was computed for "
+                     f"is made from something else")
+    ctx.ok(rule, f"{label}: {n} functions, every prepared dict entry is consulted")
